@@ -51,7 +51,7 @@ def stage_a(ctx, procs):
     res = K.par([lambda: tlc.run('LvsTree', cfg, coverage=True, workers=ctx.pick(4, 8)),
                  lambda: tlc.run('LvsTree', dp, workers=1, heavy=False),
                  lambda: tlc.run('LvsTree', wp, workers=1, heavy=False),
-                 lambda: c11.enum_run(ctx, 'laws', ctx.pick(40, 4), procs, tag='a')])
+                 lambda: c11.enum_run(ctx, 'laws', ctx.pick(79, 5), procs, tag='a')])
     r = res[0]
     ctx.add_tlc('LvsTree walk machine with carried bindings MaxNodes=%d MaxLen=%d' % (mn, ml), r)
     if r.violated:
@@ -76,7 +76,7 @@ def stage_a(ctx, procs):
 
 
 def stage_b(ctx, procs):
-    names, items = c11.enum_run(ctx, 'checks', ctx.pick(24, 2), procs, tag='b')
+    names, items = c11.enum_run(ctx, 'checks', ctx.pick(23, 1), procs, tag='b')
     idx = [i for i, n in enumerate(names) if n]           # the empty name: see stage C
     bad, nrej, nyes = [], 0, 0
     for it in items:
@@ -175,10 +175,10 @@ def make_pairs(ctx, ck, rules, text, L, nsample, Lall, tag):
 
 
 def stage_c(ctx, procs):
-    n = ctx.pick(60, 700)
+    n = ctx.pick(45, 700)
     L = ctx.pick(3, 4)
     Lall = ctx.pick(2, 3)
-    nsample = ctx.pick(1200, 5000)
+    nsample = ctx.pick(800, 5000)
     gen = K.Gen(ctx.rng, signing=0.85, p_forward=0.2)
     recs, rejected, sid, nyes = [], 0, 0, 0
     while len(recs) < n and sid < 4 * n:
